@@ -4,6 +4,7 @@ import VaxisModel.Model.Pager
 import VaxisModel.Model.Scrollbar
 import VaxisModel.Model.DynList
 import VaxisModel.Gen.ListFacts
+import VaxisModel.Model.DynGenBodies
 
 /-! Driver for C19 (stateful).  One widget per `#case`.  Lines (op<TAB>impl):
 
@@ -292,13 +293,30 @@ def dlState (s : DynList.St) : String := s!"cursor={s.cursor} off={s.offset}"
 
 def heights? (s : String) : Option (List Nat) := commaNats? s
 
+/-! The same operations run by the interpreter `Model/DynExec.lean` on the REGENERATED method bodies
+    (`Gen/DynSkel.lean`); a disagreement with `Model/DynList.lean` is reported in the model column
+    (so it shows up as a broken correspondence with the failing input). -/
+
+def interpMoved (r : Except DynExec.Err (DynList.St × Bool)) (m : DynList.St × Bool) : String :=
+  match r with
+  | .ok x => if x = m then "" else s!" INTERP!=MODEL cursor={x.1.cursor} top={x.1.top} off={x.1.offset} pending={x.1.pending} cmd={x.2}"
+  | .error e => s!" INTERP!=MODEL {repr e}"
+
+def interpDraw (cfg : DynList.Cfg) (hs : List Nat) (s : DynList.St) (w h : Nat)
+    (m : Except DynList.Panic (DynList.St × List DynList.Child)) : String :=
+  match DynExec.runDraw DynExec.genBodies (DynList.builder hs) cfg s w h (DynExec.drawFuel hs s h), m with
+  | .ok x, .ok y => if x = y then "" else s!" INTERP!=MODEL top={x.1.top} off={x.1.offset} n={x.2.length}"
+  | .error .panic, .error _ => ""
+  | .error e, _ => s!" INTERP!=MODEL {repr e}"
+  | .ok _, .error _ => " INTERP!=MODEL no panic"
+
 def dlStep (cfg : DynList.Cfg) (hs : List Nat) (s : DynList.St) (sel scr : Bool)
     (op : List String) (impl : String) : W × String :=
   let fs := fields impl
   let implCursor := (kv "cursor" fs).bind (·.toNat?)
-  let moved (r : DynList.St × Bool) (isSel : Bool) : W × String :=
+  let moved (r : DynList.St × Bool) (isSel : Bool) (ir : Except DynExec.Err (DynList.St × Bool)) : W × String :=
     let (s', cmd) := r
-    let mc := s!"{dlState s'} cmd={if cmd then 1 else 0}"
+    let mc := s!"{dlState s'} cmd={if cmd then 1 else 0}{interpMoved ir r}"
     let v := match implCursor, kv "cmd" fs with
       | some c, some k =>
         if isSel ∧ k = "1" ∧ hs.length > 0 ∧ c ≥ hs.length then s!"FAIL cursor {c} beyond the {hs.length} items" else "ok"
@@ -323,17 +341,25 @@ def dlStep (cfg : DynList.Cfg) (hs : List Nat) (s : DynList.St) (sel scr : Bool)
     | some k => let s' := DynList.setPending s k; (.dl cfg hs s' sel true, s!"{dlState s'}\t{impl}\t-")
     | Option.none => (.dead, bad)
   | ["next"] => moved (DynList.nextItem hs s) true
+      (DynExec.runNextItem DynExec.genBodies (DynList.builder hs) s)
   | ["keyj"] => moved (DynList.nextItem hs s) true
+      (DynExec.runCaptureEvent DynExec.genBodies (DynList.builder hs) false (DynExec.keyEv ["'j'"]) s)
   | ["prev"] => moved (DynList.prevItem hs s) true
+      (DynExec.runPrevItem DynExec.genBodies (DynList.builder hs) s)
   | ["keyk"] => moved (DynList.prevItem hs s) true
+      (DynExec.runCaptureEvent DynExec.genBodies (DynList.builder hs) false (DynExec.keyEv ["'k'"]) s)
   | ["wheeldown"] => moved (DynList.wheelDown s) false
+      (DynExec.runHandleEvent DynExec.genBodies (DynList.builder hs) false DynExec.wheelDownEv s)
   | ["wheelup"] => moved (DynList.wheelUp s) false
+      (DynExec.runHandleEvent DynExec.genBodies (DynList.builder hs) false DynExec.wheelUpEv s)
   | ["draw", w, h] =>
     match w.toNat?, h.toNat? with
     | some w, some h =>
-      let (wst, mc) : W × String := match DynList.draw DynList.genFacts cfg hs s w h with
-        | .ok (s', cs) => (W.dl cfg hs s' false false, s!"{dlState s'} ch={dlChildren cs} sz={w}x{h}")
-        | .error _ => (W.dead, "panic")
+      let mr := DynList.draw DynList.genFacts cfg hs s w h
+      let ir := interpDraw cfg hs s w h mr
+      let (wst, mc) : W × String := match mr with
+        | .ok (s', cs) => (W.dl cfg hs s' false false, s!"{dlState s'} ch={dlChildren cs} sz={w}x{h}{ir}")
+        | .error _ => (W.dead, "panic" ++ ir)
       if impl = "panic" then (.dead, s!"{mc}\tpanic\tFAIL Dynamic.Draw panicked")
       else
         match implCursor, (kv "ch" fs).bind parseChildren with
